@@ -748,7 +748,52 @@ func progressSide(u *Universe, pg *progress, name string) string {
 			}
 		}
 		if !okCall {
-			return "parseSpaces is not called under IsWhiteSpace(ch) of the same character"
+			// parseSpaces written out in place: `if IsWhiteSpace(c) { for IsWhiteSpace(c) { c = Next() } }` - the first
+			// test of the inner loop repeats the outer one on the same value, so at least one Next() happens
+			okInline := false
+			for _, b := range f.Blocks {
+				ifi, ok := b.Instrs[len(b.Instrs)-1].(*ssa.If)
+				if !ok {
+					continue
+				}
+				cv, ok := ifi.Cond.(*ssa.Call)
+				if !ok || u.callName(cv) != "pkg/syntax.IsWhiteSpace" {
+					continue
+				}
+				phi, ok := cv.Call.Args[0].(*ssa.Phi)
+				if !ok {
+					continue
+				}
+				var first ssa.Value
+				fromNext := false
+				for _, e := range phi.Edges {
+					if nc, ok := e.(*ssa.Call); ok && u.callName(nc) == "pkg/syntax.Lexer.Next" && b.Succs[0].Dominates(nc.Block()) {
+						fromNext = true
+					} else {
+						first = e
+					}
+				}
+				if !fromNext || first == nil {
+					continue
+				}
+				for _, d := range f.Blocks {
+					if i2, ok := d.Instrs[len(d.Instrs)-1].(*ssa.If); ok && d != b {
+						if c2, ok := i2.Cond.(*ssa.Call); ok && u.callName(c2) == "pkg/syntax.IsWhiteSpace" && c2.Call.Args[0] == first && (edgeDominates(d, d.Succs[0], b) || (d.Succs[0] == b && d.Dominates(b))) {
+							okInline = true
+						}
+					}
+				}
+			}
+			if !okInline {
+				return "parseSpaces is not called under IsWhiteSpace(ch) of the same character"
+			}
+			if pl := u.ssaFunc("pkg/syntax", "Lexer.parseLine"); pl != nil {
+				isRet := func(x ssa.Instruction) bool { _, ok := x.(*ssa.Return); return ok }
+				if reachableAvoiding(pl.Blocks[0], 0, isRet, func(x ssa.Instruction) bool { return isCallTo(u, x, "pkg/syntax.Lexer.Next") }) != nil {
+					return "parseLine can return without consuming the line break"
+				}
+			}
+			return ""
 		}
 		// in parseSpaces: loop condition IsWhiteSpace(phi) with phi edges {param ch, result of Next()}
 		okLoop := false
@@ -1281,7 +1326,7 @@ func errorDroppedAtMode(u *Universe, f *ssa.Function, call ssa.CallInstruction, 
 						}
 					}
 					// `return f()` spelled as a tuple extract of the same call
-					if ex, ok := rv.(*ssa.Extract); ok && ex.Tuple == call.Value() && (!strict || isErrorType(rv.Type())) {
+					if ex, ok := rv.(*ssa.Extract); ok && ex.Tuple == call.Value() && isErrorType(rv.Type()) {
 						prop = true
 					}
 				}
